@@ -103,22 +103,27 @@ class C28(core.Prop):
         K, E = mpi2.consts()
         b = p2p.Build(case, K)
         dc = b.driver_case()
-        res = mpi2.run(dc, cpu=60)
+        res = mpi2.run(dc, cpu=25)
         self.labels(b, oc)
         fail = res.failure()
         if fail:
             sig, msg_ = fail
             if sig == "bad-case":
                 raise RuntimeError(msg_)
+            if sig == "cpu-exceeded" and any(op["t"] == "precv" and op["mode"] == "probe" for ops in b.ops for op in ops):
+                # MPI_Probe polls for ever when its message never comes: the simulation does not end (a deadlock with a busy rank)
+                sig = "deadlock"
+                msg_ = "the simulation does not end (a rank polls in MPI_Probe for a message that never comes): " + msg_
             if sig == "deadlock":
                 msg_ = "the program is deadlock-free under every matching MPI allows, yet " + msg_
-                # SMPI's receiver chooses its mailbox from its OWN buffer size: a receive smaller than smpi/async-small-thresh never
-                # sees a message that is not smaller than it (known finding; any other deadlock keeps the plain signature)
-                pairs = b.across_thresh()
-                if pairs:
-                    sig = "deadlock:truncation-across-async-thresh"
+                sig = b.blocked_sig("deadlock")
+                if sig.endswith("async-thresh"):
+                    pairs = b.across_thresh()
                     msg_ += "  [message %d (%d bytes) is compatible with receive #%d of capacity %d bytes < smpi/async-small-thresh:%d]" % (
                         pairs[0][0], b.msgs[pairs[0][0]]["nbytes"], pairs[0][1], b.msgs[pairs[0][1]]["cap"] * b.msgs[pairs[0][1]]["tsize"], b.thr[0])
+                elif sig != "deadlock":
+                    msg_ += "  [the case has the ingredients of the known %s non-overtaking defect of the two mailboxes, smpi/async-small-thresh:%d]" % (
+                        sig.rsplit(":", 1)[1], b.thr[0])
             oc.bad(sig, msg_)
             return oc
         p2p.judge(b, res, oc, E)
